@@ -15,6 +15,7 @@
 package storage
 
 import (
+	"bytes"
 	"context"
 	"os"
 	"time"
@@ -195,11 +196,12 @@ func (s *SSD) lookup(q lookupQuery) (matches message.Frame) {
 			prefix = message.NewPrefix(q.Ssid, q.Until)
 			it.Seek(prefix)
 		} else {
+			// Continue after the given message. If it is gone (expired), the iterator already
+			// stands on the first message after it.
 			it.Seek(q.StartFromID)
-			if !it.Valid() {
-				return nil
+			if it.Valid() && bytes.Equal(it.Item().Key(), q.StartFromID) {
+				it.Next()
 			}
-			it.Next()
 		}
 
 		matchesSize := 0
